@@ -1224,6 +1224,7 @@ def proof(ctx: Ctx):
         ctx.log(f"translation failed: {ex}")
         text = tr.FALLBACK
     ctx.cov["generated_equals_fallback"] = text == tr.FALLBACK
+    ctx.cov["translator_followed_helpers"] = list(tr.NORMALISED)     # helpers inlined by the symbolic reading
     core.proof_leg(ctx, {"Gen_C14.v": text}, PROP_FILE)
     gen = ctx.build / "gen"
     if not (gen / "Gen_C14.vo").exists():
